@@ -7,7 +7,7 @@
    [trusted] are universally quantified oracles (level: partial — the decision logic around the oracles).
 
      usable r st now      the response decodes, embeds the responder certificate, its signature verifies with that
-                          certificate's key, the certificate passes the profile with the OCSPSigning EKU gate (validity at
+                          certificate's key, the certificate carries id-kp-OCSPSigning, passes the profile (validity at
                           the signing time, else now) and is trusted: "validly signed"
      concerns r ch        some single response carries the certId (serial, issuer name hash, issuer key hash) of the signer
      irrelevant r ..      not usable, or does not concern the signer: the class of the property's second sentence
@@ -33,10 +33,10 @@ Theorem c37_revoked_never_valid :
 Proof. exact stapled_revoked_fatal. Qed.
 
 (* the same for a response supplied by a certificate-status assertion, whenever the supplied list is consulted
-   (override set, or nothing stapled and fetching off) and only irrelevant responses precede it *)
+   (override set; or fetching off and the staple, if any, is itself irrelevant) and only irrelevant responses precede it *)
 Theorem c37_asserted_revoked_never_valid :
   forall IH VerifyR profile_rest trusted cf stapled rs1 r rs2 fetched ch st now,
-    (cf_override cf = true \/ (stapled = None /\ cf_fetch cf = false)) ->
+    (cf_override cf = true \/ (cf_fetch cf = false /\ staple_undecided IH VerifyR profile_rest trusted stapled ch st now)) ->
     Forall (fun x => irrelevant IH VerifyR profile_rest trusted x ch st now) rs1 ->
     usable VerifyR profile_rest trusted r st now = true ->
     says_revoked IH r ch st = true ->
@@ -44,78 +44,72 @@ Theorem c37_asserted_revoked_never_valid :
     claim_survives IH VerifyR profile_rest trusted cf stapled (rs1 ++ r :: rs2) fetched ch st now = false.
 Proof. exact supplied_revoked_fatal. Qed.
 
-(* Responses about another certificate, or not validly signed, contribute nothing when stapled: no code, no error ... *)
+(* Responses about another certificate, or not validly signed, never change the verdict when stapled: status and codes are
+   those of the same manifest without the staple, in every configuration (override, fetching, asserted responses).
+   (F-OCSP-SHADOW was repaired by fb08c71da: no known class.) *)
 Theorem c37_unbound_ignored :
   forall IH VerifyR profile_rest trusted cf r supplied fetched ch st now,
     irrelevant IH VerifyR profile_rest trusted r ch st now ->
-    supplied_used cf supplied = false ->
-    check_ocsp_status IH VerifyR profile_rest trusted cf (Some r) supplied fetched ch st now = (StatusOk false, []).
-Proof. exact stapled_irrelevant. Qed.
-
-(* ... so the result is the one of the same manifest without the staple — outside the known class F-OCSP-SHADOW
-   (fetching enabled, or asserted responses present: the ignored staple is consulted *instead of* them) *)
-Theorem c37_unbound_same_verdict :
-  forall IH VerifyR profile_rest trusted cf r supplied fetched ch st now,
-    irrelevant IH VerifyR profile_rest trusted r ch st now ->
-    ~ known_shadow cf supplied ->
     check_ocsp_status IH VerifyR profile_rest trusted cf (Some r) supplied fetched ch st now
     = check_ocsp_status IH VerifyR profile_rest trusted cf None supplied fetched ch st now.
-Proof. exact stapled_irrelevant_unless_shadow. Qed.
+Proof. exact stapled_irrelevant_same. Qed.
 
-(* the class is real: an irrelevant staple hides an asserted `revoked` and suppresses fetching *)
-Theorem c37_shadow_refuted :
+(* in particular: no code and no error when nothing else is available *)
+Theorem c37_unbound_contributes_nothing :
+  forall IH VerifyR profile_rest trusted cf r fetched ch st now,
+    irrelevant IH VerifyR profile_rest trusted r ch st now -> cf_fetch cf = false ->
+    check_ocsp_status IH VerifyR profile_rest trusted cf (Some r) [] fetched ch st now = (StatusOk false, []).
+Proof. exact stapled_irrelevant_nothing. Qed.
+
+(* regression witness of the repaired F-OCSP-SHADOW (corpus lines 4-5) *)
+Theorem c37_shadow_fixed_example :
   w_status (w_cf false false) None [w_revoked] None = (StatusRevoked, [OcRevoked])
-  /\ w_status (w_cf false false) (Some w_junk) [w_revoked] None = (StatusOk false, [])
+  /\ w_status (w_cf false false) (Some w_junk) [w_revoked] None = (StatusRevoked, [OcRevoked])
   /\ w_status (w_cf false true) None [] (Some w_revoked) = (StatusOk true, [OcRevoked])
-  /\ w_status (w_cf false true) (Some w_junk) [] (Some w_revoked) = (StatusOk false, []).
-Proof. exact shadow_refuted. Qed.
+  /\ w_status (w_cf false true) (Some w_junk) [] (Some w_revoked) = (StatusOk true, [OcRevoked]).
+Proof. exact shadow_fixed_example. Qed.
 
-(* Irrelevant responses among the asserted ones never change the result (removing one leaves status and codes
-   unchanged; the only exception is the degenerate one where the list becomes empty under override, which falls through
-   to the stapled / fetch branch). *)
+(* Irrelevant responses among the asserted ones never change the result (the only exception is the degenerate one where
+   the list becomes empty under override, which falls through to the stapled / fetch branch). *)
 Theorem c37_asserted_unbound_ignored :
   forall IH VerifyR profile_rest trusted cf stapled rs1 r rs2 fetched ch st now,
     irrelevant IH VerifyR profile_rest trusted r ch st now ->
-    fst (check_ocsp_status IH VerifyR profile_rest trusted cf stapled (rs1 ++ r :: rs2) fetched ch st now)
-    = fst (check_ocsp_status IH VerifyR profile_rest trusted cf stapled (rs1 ++ rs2) fetched ch st now)
-    /\ snd (check_ocsp_status IH VerifyR profile_rest trusted cf stapled (rs1 ++ r :: rs2) fetched ch st now)
-       = snd (check_ocsp_status IH VerifyR profile_rest trusted cf stapled (rs1 ++ rs2) fetched ch st now)
+    check_ocsp_status IH VerifyR profile_rest trusted cf stapled (rs1 ++ r :: rs2) fetched ch st now
+    = check_ocsp_status IH VerifyR profile_rest trusted cf stapled (rs1 ++ rs2) fetched ch st now
     \/ (cf_override cf = true /\ rs1 ++ rs2 = []).
 Proof. exact supplied_irrelevant. Qed.
 
 (* Responder certificate checks: a usable response is signed by a certificate carrying id-kp-OCSPSigning and nothing
-   else — outside the known class F-OCSP-EKU (no OCSPSigning, but emailProtection or timeStamping, which has_allowed_eku
-   accepts before it consults the configured list). *)
+   else.  (F-OCSP-EKU was repaired by b2c9a9e81: no known class, no assumption on has_allowed_eku.) *)
 Theorem c37_responder_eku :
   forall VerifyR profile_rest trusted r st now first rest,
     usable VerifyR profile_rest trusted r st now = true -> rp_certs r = Some (first :: rest) ->
     exists e, tc_eku first = Some e /\ eku_any e = false /\
-              (eku_other_allowed e = false ->
-               (eku_ocsp_signing e = true /\ eku_time_stamping e = false /\ eku_email_protection e = false /\
-                eku_client_auth e = false /\ eku_server_auth e = false /\ eku_code_signing e = false /\ eku_other_nonempty e = false)
-               \/ (eku_ocsp_signing e = false /\ (eku_email_protection e = true \/ eku_time_stamping e = true))).
+              eku_ocsp_signing e = true /\ eku_time_stamping e = false /\ eku_email_protection e = false /\
+              eku_client_auth e = false /\ eku_server_auth e = false /\ eku_code_signing e = false /\ eku_other_nonempty e = false.
 Proof. exact responder_eku. Qed.
 
-Theorem c37_responder_eku_refuted :
+(* regression witness of the repaired F-OCSP-EKU (corpus lines 1-2) *)
+Theorem c37_responder_eku_fixed_example :
   w_status (w_cf false false) (Some (w_response (w_responder (w_eku false true) false) [w_single 77 (Revoked 500 None)])) [] None
-  = (StatusRevoked, [OcRevoked])
+  = (StatusOk false, [])
   /\ w_status (w_cf false false) (Some (w_response (w_responder (w_eku false true) false) [w_single 77 Good])) [] None
-  = (StatusOk true, [OcNotRevoked]).
-Proof. exact responder_eku_refuted. Qed.
+  = (StatusOk false, []).
+Proof. exact responder_eku_fixed_example. Qed.
 
-(* F-OCSP-CA: a response signed by the issuing CA itself is not usable (the responder must pass the end-entity profile):
-   a `revoked` delivered that way is ignored *)
+(* F-OCSP-CA (open): a response signed by the issuing CA itself is not usable (the responder must pass the end-entity
+   profile): a `revoked` delivered that way is ignored *)
 Theorem c37_ca_signed_refuted :
   w_status (w_cf false false) (Some (w_response (w_responder (w_eku true false) true) [w_single 77 (Revoked 500 None)])) [] None
   = (StatusOk false, []).
 Proof. exact ca_signed_refuted. Qed.
 
-(* F-OCSP-CARRIER (partial: the store-level gathering of certificate-status assertions is modelled by one definition):
-   a `revoked` about signer 77 carried by a manifest signed by another certificate never reaches the claim it is about *)
-Theorem c37_assertion_carrier_refuted_partial :
-  assertion_supplies toyIH toyVerifyR (Some w_chain_other) w_revoked 77%N 1000 = false
-  /\ assertion_supplies toyIH toyVerifyR (Some w_chain) w_revoked 77%N 1000 = true.
-Proof. exact carrier_refuted. Qed.
+(* F-OCSP-CARRIER repaired by 0aa703aa5 (partial: the store-level gathering of certificate-status assertions is modelled by
+   one definition): a `revoked` about signer 77 reaches that signer's claim whichever manifest carries the assertion *)
+Theorem c37_assertion_reaches_named_signer_partial :
+  assertion_supplies toyIH toyVerifyR [w_chain_other; w_chain] w_revoked 77%N 1000 = true
+  /\ assertion_supplies toyIH toyVerifyR [w_chain_other; w_chain] w_revoked 80%N 1000 = false.
+Proof. exact carrier_fixed_example. Qed.
 
 (* the hypotheses are satisfiable and the model computes non-trivial cases *)
 Example c37_example :
